@@ -1156,3 +1156,71 @@ theorem keyString_eq_renderKey (b : Batch) : keyString b = renderKey (realKey b)
 
 end
 end Queue
+
+namespace Queue
+open List
+
+/-! ## the hash input is injective (length-prefixed, hence self-delimiting) -/
+
+theorem be8_length (n : Nat) : (be8 n).length = 8 := rfl
+
+theorem toUInt8_mod_inj {a b : Nat} (h : (a % 256).toUInt8 = (b % 256).toUInt8) : a % 256 = b % 256 := by
+  have := congrArg UInt8.toNat h
+  simpa [Nat.toUInt8, UInt8.toNat_ofNat', Nat.mod_mod] using this
+
+/-- `binary.BigEndian.PutUint64` is injective on uint64 -/
+theorem be8_inj {n m : Nat} (hn : n < 18446744073709551616) (hm : m < 18446744073709551616)
+    (h : be8 n = be8 m) : n = m := by
+  unfold be8 at h
+  simp only [List.cons.injEq, and_true] at h
+  obtain ⟨h0, h1, h2, h3, h4, h5, h6, h7⟩ := h
+  have := toUInt8_mod_inj h0; have := toUInt8_mod_inj h1; have := toUInt8_mod_inj h2
+  have := toUInt8_mod_inj h3; have := toUInt8_mod_inj h4; have := toUInt8_mod_inj h5
+  have := toUInt8_mod_inj h6; have := toUInt8_mod_inj h7
+  omega
+
+/-- the per-transaction part of the hash input -/
+def txsEnc (b : List Bytes) : Bytes := b.flatMap (fun tx => be8 tx.length ++ tx)
+
+theorem txsEnc_cons (x : Bytes) (xs : List Bytes) : txsEnc (x :: xs) = be8 x.length ++ (x ++ txsEnc xs) := by
+  simp [txsEnc, List.flatMap_cons, List.append_assoc]
+
+/-- the length-prefixed concatenation is self-delimiting -/
+theorem txsEnc_injective : ∀ (a b : List Bytes), (∀ tx ∈ a, tx.length < 18446744073709551616) →
+    (∀ tx ∈ b, tx.length < 18446744073709551616) → txsEnc a = txsEnc b → a = b
+  | [], [], _, _, _ => rfl
+  | [], y :: ys, _, _, h => by
+    have := congrArg List.length h
+    rw [txsEnc_cons] at this; simp [txsEnc, be8_length] at this; omega
+  | x :: xs, [], _, _, h => by
+    have := congrArg List.length h
+    rw [txsEnc_cons] at this; simp [txsEnc, be8_length] at this
+  | x :: xs, y :: ys, ha, hb, h => by
+    rw [txsEnc_cons, txsEnc_cons] at h
+    obtain ⟨h1, h2⟩ := List.append_inj h (by simp [be8_length])
+    have hl : x.length = y.length := be8_inj (ha x (by simp)) (hb y (by simp)) h1
+    obtain ⟨h3, h4⟩ := List.append_inj h2 hl
+    rw [h3, txsEnc_injective xs ys (fun t ht => ha t (by simp [ht])) (fun t ht => hb t (by simp [ht])) h4]
+
+theorem hashEnc_eq (b : List Bytes) : hashEnc b = if b.isEmpty then [] else be8 b.length ++ txsEnc b := rfl
+
+theorem hashEnc_injective (a b : List Bytes) (ha : ∀ tx ∈ a, tx.length < 18446744073709551616)
+    (hb : ∀ tx ∈ b, tx.length < 18446744073709551616) (h : hashEnc a = hashEnc b) : a = b := by
+  rw [hashEnc_eq, hashEnc_eq] at h
+  cases a with
+  | nil =>
+    cases b with
+    | nil => rfl
+    | cons y ys =>
+      have := congrArg List.length h
+      simp [be8_length] at this; omega
+  | cons x xs =>
+    cases b with
+    | nil =>
+      have := congrArg List.length h
+      simp [be8_length] at this
+    | cons y ys =>
+      simp only [List.isEmpty_cons, Bool.false_eq_true, if_false] at h
+      exact txsEnc_injective _ _ ha hb (List.append_inj h (by simp [be8_length])).2
+
+end Queue
